@@ -325,8 +325,10 @@ func (r *runState) applyHash(alg string, stream value) value {
 			}
 		}
 		res = r.declare(r.fresh("H_"+alg), smt.SString, "hash")
-		// digests are non-empty (they are used as file names); their exact length is irrelevant
-		r.assertPC(smt.Le(smt.IntC(1), smt.StrLen(res)))
+		// digests have the fixed length of the algorithm's hex rendering (known to the term
+		// simplifier, so that e.g. length-framed digests get a concrete prefix)
+		r.assertPC(smt.Eq(smt.StrLen(res), smt.IntC(int64(hashLen(alg)))))
+		res.KnownLen = hashLen(alg)
 		// digests are hex strings; all the model needs is that they are separator free
 		r.sepFree[res.Name] = true
 	}
@@ -476,6 +478,20 @@ func init() {
 	})
 	register(symPkg+"Class", func(fr *frame, args []value) value {
 		fr.run().class = cstr(args[0])
+		return nil
+	})
+}
+
+func init() {
+	// Transcript: concrete cross-validation of the engine against the native build
+	register(symPkg+"Transcript", func(fr *frame, args []value) value {
+		r := fr.run()
+		v := normStr(args[0])
+		line, ok := v.(string)
+		if !ok {
+			line = "<symbolic:" + strTerm(v).String() + ">"
+		}
+		r.transcript = append(r.transcript, line)
 		return nil
 	})
 }
